@@ -154,6 +154,15 @@ def _interleave_clearct(lines):
 def signature(pid, script, ds):
     """stable key of a violation for known_findings.json"""
     d = ds[0] if ds else {}
+    if pid == "C13" and d.get("kind") == "diff" and str(d.get("model", "")).startswith("audit FAILED"):
+        # call-site key: which clause fails after reordering which kind of forest
+        clauses = sorted(set(x.split("@")[0] for x in d["model"].split()[2:]))
+        lines = script.splitlines()
+        ro = [ln.split() for ln in lines if ln.startswith("reorder ")]
+        if ro:
+            fd = [ln for ln in lines if ln.startswith("forest %s " % ro[-1][1])]
+            if fd and " rel " in fd[0] and "swap=var" in fd[0]:
+                return "C13:relation-varswap:" + "+".join(clauses)
     core = [ln for ln in script.splitlines() if ln.split() and ln.split()[0] not in ("init",)]
     return "%s:%s:%s" % (pid, d.get("kind", "?"), hashlib.md5("\n".join(core).encode()).hexdigest()[:12])
 
